@@ -98,7 +98,7 @@ def stage_stress(pid, tier, seed, d, binp, st, ctx):
     bads = ctx["trace_monitor"](d, files)
     json.dump(bads, open(os.path.join(d, "bads_stress_%s.json" % st["name"]), "w"))
     props = set(st.get("props", [pid]))
-    mine = [b for b in bads if b[2] in props]
+    mine = [b for b in bads if b[2] in props and (pid != "C12" or b[0] in ctx["crashed"])]
     viol = []
     runs = None
     seen = set()
@@ -198,3 +198,78 @@ def stage_macro(pid, tier, seed, d, binp, st, ctx):
                 violations=viol, traces=len(rows),
                 samples=[{"stage": "macro", "row": rows[0]}, {"stage": "macro", "row": rows[-1]}],
                 nontrivial_keys=["row%d" % i for i in range(len(rows))])
+
+
+def stage_spawnids(pid, tier, seed, d, binp, st, ctx):
+    per = 3000 if tier == "quick" else 60000
+    tp = os.path.join(d, "spawnids.ndjson")
+    ctx["run"]([binp, "spawnids", "--threads", "16", "--per", str(per), "--out", tp], cwd=d, timeout=1800)
+    out = tlc_assume(d, "IdsUnique", {"TRACE": tp}, "ids")
+    if "IDSCHECKED" not in out:
+        open(os.path.join(d, "IdsUnique.out"), "w").write(out)
+        raise ctx["ToolError"]("IdsUnique check did not complete")
+    bad = [l for l in out.splitlines() if "IDSBAD" in l]
+    viol = []
+    if bad:
+        rp = ctx["save_replay"](pid, "spawnids", 0, None, [], bad)
+        viol.append(("spawnids", 0, pid, "two concurrently spawned actors share an id: " + bad[0][:200], rp))
+    return dict(coverage={"threads": 16, "spawns": 16 * per}, violations=viol, traces=16,
+                samples=[{"stage": "spawnids", "threads": 16, "per_thread": per}], nontrivial_keys=["ids%d" % i for i in range(16)])
+
+
+def stage_teardown_model(pid, tier, seed, d, binp, st, ctx):
+    """Teardown.tla: with the detached drain every ask completes and nothing is stranded; without it (the code before
+    the F2 fix) TLC must find the stranded envelope."""
+    askers = "{a1, a2, a3}" if tier == "quick" else "{a1, a2, a3, a4}"
+    res = {}
+    total_states = total_trans = 0
+    for name, fix, cap in (("fixed", "TRUE", 1), ("fixed_cap2", "TRUE", 2), ("old", "FALSE", 1)):
+        cfg = ("SPECIFICATION Spec\nINVARIANTS NoStranded PermitsSane\nPROPERTY EveryAskCompletes\nCHECK_DEADLOCK FALSE\n"
+               "CONSTANTS\n  Askers = %s\n  Cap = %d\n  DetachedDrain = %s\n" % (askers, cap, fix))
+        open(os.path.join(d, "Teardown_%s.cfg" % name), "w").write(cfg)
+        p = subprocess.run(JAVA[:2] + ["-Xmx4g"] + JAVA[4:] + ["-workers", "4", "-metadir", os.path.join(d, "meta_td_" + name),
+                            "-noGenerateSpecTE", "-config", "Teardown_%s.cfg" % name, "Teardown.tla"],
+                           cwd=d, text=True, stdout=subprocess.PIPE, stderr=subprocess.STDOUT, timeout=1800)
+        out = p.stdout
+        m = re.findall(r"(\d[\d,]*) states generated, (\d[\d,]*) distinct states found", out)
+        g, ds = (int(m[-1][0].replace(",", "")), int(m[-1][1].replace(",", ""))) if m else (0, 0)
+        violated = "is violated" in out or "was violated" in out
+        res[name] = dict(states=ds, transitions=g, violated=violated)
+        total_states += ds
+        total_trans += g
+        if fix == "TRUE" and (violated or "Model checking completed" not in out):
+            open(os.path.join(d, "Teardown_%s.out" % name), "w").write(out)
+            raise ctx["ToolError"]("MODEL FAILURE: Teardown.tla (%s) does not satisfy NoStranded / EveryAskCompletes" % name)
+        if fix == "FALSE" and not violated:
+            raise ctx["ToolError"]("Teardown.tla (old behaviour) was expected to exhibit the stranded envelope but did not")
+    ctx["log"]("Teardown.tla: %s" % res)
+    return dict(coverage=res, violations=[], traces=0, states=total_states, transitions=total_trans, samples=[], nontrivial_keys=[])
+
+
+def stage_teardown_stress(pid, tier, seed, d, binp, st, ctx):
+    iters = st["iters"][tier]
+    tr = os.path.join(d, "teardown.ndjson")
+    p = ctx["run"]([binp, "teardown", "--iters", str(iters), "--seed", str(seed), "--sample", "200", "--out", tr], cwd=d, timeout=7200)
+    m = re.search(r"asks=(\d+) runs_with_pending=(\d+) runs_written=(\d+)", p.stdout or "")
+    asks, hung, written = (int(m.group(1)), int(m.group(2)), int(m.group(3))) if m else (0, 0, 0)
+    files, nruns, nev = ctx["split_trace"](tr, d, "teardown", ctx["NCPU"])
+    bads = ctx["trace_monitor"](d, files)
+    mine = [b for b in bads if b[2] == pid]
+    viol = []
+    seen = set()
+    runs = None
+    for (rid, line, prop, why) in mine:
+        if rid in seen:
+            continue
+        seen.add(rid)
+        if runs is None:
+            runs = ctx["load_runs"](tr)
+        rp = ctx["save_replay"](pid, "teardown", rid, None, runs.get(rid, []), [b for b in bads if b[0] == rid])
+        viol.append(("teardown", rid, prop, why + " (ask raced the end of the actor task on a multi-threaded runtime)", rp))
+        if len(viol) >= 10:
+            break
+    ctx["log"]("teardown stress: %d iterations, %d asks racing the actor's end, runs with something pending: %d, C03 violations: %d"
+               % (iters, asks, hung, len(seen)))
+    return dict(coverage={"iterations": iters, "asks_racing_teardown": asks, "runs_with_pending": hung, "runs_judged_by_tlc": nruns},
+                violations=viol, traces=iters, samples=[{"stage": "teardown", "iterations": iters, "askers": 6}],
+                nontrivial_keys=["td%d" % i for i in range(min(iters, 1000))])
